@@ -1492,6 +1492,20 @@ class Interp:
                     x = self.ev(v.value, env, mod)
                 except Unsupported:
                     x = sym.var("?fmt", "any")
+                if isinstance(x, Rec) and v.format_spec is None:
+                    # f"{obj!r}" / f"{obj}" of an object of the package: its own __repr__ / __str__ when that gives a plain string
+                    for mname in (("__repr__",) if v.conversion == ord("r") else ("__str__", "__repr__")):
+                        if x.cls.lookup(mname)[0] is not None:
+                            try:
+                                r_ = self.call_method(x, mname, [])
+                            except (Raised, Unsupported):
+                                r_ = None
+                            if isinstance(r_, str) and not is_sym(r_):
+                                x = r_
+                            break
+                if isinstance(x, str) and not is_sym(x) and not isinstance(v.value, ast.Constant) and v.format_spec is None and v.conversion in (-1, ord("s")):
+                    parts.append(x)
+                    continue
                 if is_sym(x) or isinstance(x, (Rec, ClassVal, Closure, SymDict, Bound)):
                     symbolic = True
                     parts.append(x if is_sym(x) else sym.var(f"repr:{type(x).__name__}", "str"))
